@@ -69,6 +69,9 @@ def make_replay(prop, oid, a, repo, unit_run):
     rec = dict(property=prop, obligation=oid, function=a.get("fn"), verifier_message=a["message"],
                source=a["detail"].get("src"), clause_or_site=a["detail"].get("text"), verifier_output=rendered,
                checker="verus", repo=repo)
+    if a["detail"].get("kani"):
+        rec["checker"] = "kani/cbmc"
+        rec["verifier_output"] = a["detail"]["kani"]
     fam = family_for(prop, oid)
     found = False
     if fam:
